@@ -33,7 +33,13 @@ RULE = ('one call of a separation helper per case on real Stream / MultiStream o
         'reordered superset, subset) that is usually reused (already holds flows) and often receives nothing. State kept between calls: the lle / vle multi_stream argument is usually one that still holds flows of an earlier call, and the equilibrium stub is in most cases relative (it splits whatever material the working stream holds, i.e. a conserving equilibrium; the rows it saw are compared with the rows of the model); phase_split feeds carry a history (per-phase views fetched, an earlier split, flows rewritten, phase set changed; half of the histories are view/split -> phases -> set) executed on the real MultiStream and on the cached-view state machine. mix_and_split also gets a MultiStream top outlet with inlets in the phases L, g, l, s (owned by the top, other-case twin of an owned phase, or new) on the same or another property package. mix_hist: histories of 1-3 mix_and_split calls on the same outlet objects with inlets of the receiving or other packages whose flows are entered chemical by chemical in chosen orders (the same chemicals in different orders recur within and across calls), run against the model of indexer.index_overlap with its per-package index cache (cleared at the start of each case). phase_split also gets outlets on other packages and feed rows entered in chosen orders. A few calls per run use the REAL flash on Water / Ethanol (V, and x / y specifications within 1e-6 of the feed composition): the wrapper must hand the rows through and the flash must honour its contract (rows add up to the feed, none negative). Compared: every outlet / '
         'mutated inlet flow per phase (1e-9 relative), returned phase fraction, exception class, number of infeasibility '
         'warnings, phases of the outlets. non-trivial = the call returned normally and moved material, or took an '
-        'infeasibility / clipping branch; distinct = distinct case hash')
+        'infeasibility / clipping branch; distinct = distinct case hash. '
+        'Round 6: vle_hist = two to four vle(..., multi_stream=ms) calls on ONE holder (phases lg / lgs / Llg / Lgls, empty or '
+        'holding flows) whose feeds are Streams of phase l/g/L/s or MultiStreams of any of ten phase sets with rows that may be '
+        'empty, so the holder expands and its rows shift between calls; the table-driven flash of these cases reads and writes '
+        'the rows by position (not through the key index), per call the outlets, the rows the flash saw, the holder phases, '
+        'outlet phases and the untouched feed are compared. moisture / mix_moisture cases carry for each Stream outlet a '
+        'history of 1-5 steps from {imass read, fresh partner.link_with(stream), stream.unlink()} applied before the call')
 ASSUMPTIONS = [
     'float rounding is not modelled: values are compared to 1e-9 relative; generators avoid inputs whose branch decision '
     '(sign of the remaining permeate water, density tie, clip tie) is not decided by a clear margin in exact arithmetic',
@@ -60,7 +66,10 @@ TRUSTED = ['model coq/C20/Model.v is hand-written from thermosteam/separations.p
     'the model follows the source with pending_fixes/C20_1..6 applied; on a tree without them the CORPUS cases '
            'reproduce each defect (mismatch + direct oracle message)',
            'MultiStageEquilibrium is not modelled; vle with an outlet that is the feed uses the same model as the call with separate '
-           'outlets (the flash runs on a copy and the feed is not read after the first write): established by the correspondence only']
+           'outlets (the flash runs on a copy and the feed is not read after the first write): established by the correspondence only',
+           'link / unlink / imass (Stream.link_with, Stream.unlink, indexer.by_mass) and MaterialIndexer.copy_like / _expand_phases / '
+           '_set_cache / _get_index_data for phase keys are modelled by hand as object-identity state machines (lstate, vstate); '
+           'the vle_hist flash stub writes rows by position; trim_cache eviction is covered by the theorem holding for any valid cache content']
 CASE_TIMEOUT = 60
 
 IDS = ['Water', 'A_', 'B_', 'C_', 'D_', 'E_']
@@ -272,6 +281,9 @@ def gen_mix_moisture(rng):
              'pkg': rng.choice([None, 'sup']), 'top0': maybe_empty(rng, 0.4)}
         m = len(PKGS[c['pkg']]) if c['pkg'] else N
         c['bot0'] = [fl(rng.choice(FLOWS[2:])) if rng.random() < 0.5 else 0. for _ in range(m)] if rng.random() < 0.6 else [0.] * m
+        if c['pkg'] is None:      # both outlets on the main package: they may have been linked / unlinked before
+            c['prepR'] = gen_link_hist(rng) if rng.random() < 0.6 else []
+            c['prepP'] = gen_link_hist(rng) if rng.random() < 0.6 else []
         return c
     raise RuntimeError('gen_mix_moisture')
 
@@ -1044,6 +1056,8 @@ def run_impl(case):
     if fn == 'mix_moisture':
         ins = [mkstream(v) for v in case['ins']]
         R = mkstream(case.get('top0', [0.] * N)); P = mkstream(case.get('bot0', [0.] * N), pkg=case.get('pkg'))
+        partners = []
+        apply_link_hist(R, case.get('prepR') or [], partners); apply_link_hist(P, case.get('prepP') or [], partners)
         c = Catch().run(lambda: S.mix_and_split_with_moisture_content(ins, R, P, np.array(case['split'], float),
                                                                       case['mc'], case['ID'], case['strict']))
         return {'R': read_moist(R), 'P': read_moist(P), 'err': c.err}
@@ -1277,8 +1291,9 @@ def coq_case(case, out):
                 f'{qlist(case["split"])} {cnat(len(PKGS[case["pkg"]]))} {pos} {moisture_args(case)}) '
                 f'{qlist(out["R"][0])} {qlist(out["R"][1])} {qlist(out["P"][0])} {qlist(out["P"][1])} {coerr(out["err"])})')
     if fn == 'mix_moisture':
-        return (f'(mres_eqb (mix_and_split_with_moisture {cnat(N)} {qlist(MWS)} {clist(case["ins"], qlist)} '
-                f'{qlist(case["split"])} {moisture_args(case)}) '
+        return (f'(omres_eqb (mix_and_split_with_moisture_hist {cnat(N)} {qlist(MWS)} {clist(case["ins"], qlist)} '
+                f'{qlist(case["split"])} {lops_term(case.get("prepR") or [])} {lops_term(case.get("prepP") or [])} '
+                f'{moisture_args(case)}) '
                 f'{qlist(out["R"][0])} {qlist(out["R"][1])} {qlist(out["P"][0])} {qlist(out["P"][1])} {coerr(out["err"])})')
     if fn in ('partition', 'phase_fraction'):
         calls = out['calls']
@@ -1505,6 +1520,8 @@ def classify(case, out):
             ks.append('clipped')
         if out.get('phi') is not None:
             ks.append('phi:' + ('0' if out['phi'] <= 0 else '1' if out['phi'] >= 1 else 'interior'))
+    if fn == 'mix_moisture' and (case.get('prepR') or case.get('prepP')):
+        ks.append('link-history:' + '+'.join(sorted(set((case.get('prepR') or []) + (case.get('prepP') or [])))))
     if fn == 'moisture':
         ks.append('kinds:' + case['kinds'])
         ks.append('strict:' + str(case['strict']))
@@ -1752,7 +1769,9 @@ def oracle(case):
         if not clamped:
             Rtot = vadd(out['R'][0], out['R'][1])
             mass = sum(x * m for x, m in zip(Rtot, MWS))
-            if mass > 0 and abs(Rtot[w] * MWS[w] / mass - mc) > 1e-9:
+            # a retentate whose mass cancels to rounding noise (zero dry mass, opposite flows in two phases) has no fraction
+            scale = sum(abs(x) * m for r_ in out['R'] for x, m in zip(r_, MWS))
+            if mass > 1e-9 * scale and abs(Rtot[w] * MWS[w] / mass - mc) > 1e-9:
                 return (f'{fn}: moisture fraction reached {Rtot[w] * MWS[w] / mass} instead of {mc} '
                         f'(kinds {case.get("kinds", "SS")})')
         return None
